@@ -87,7 +87,15 @@ func genProg(r *vh.Rng, nwf int, mem bool) []Stmt {
 			if pendingLoad {
 				sync()
 			}
-			p = append(p, Stmt{Op: "ldsw"}, Stmt{Op: "barrier"}, Stmt{Op: "ldsr"}, Stmt{Op: "use"}, Stmt{Op: "barrier"})
+			p = append(p, Stmt{Op: "ldsw"})
+			if r.Intn(2) == 0 {
+				p = append(p, Stmt{Op: "waitcnt", A: 15, B: 0})
+			}
+			p = append(p, Stmt{Op: "barrier"}, Stmt{Op: "ldsr"})
+			if r.Intn(2) == 0 {
+				p = append(p, Stmt{Op: "waitcnt", A: 15, B: 0})
+			}
+			p = append(p, Stmt{Op: "use"}, Stmt{Op: "barrier"})
 		case 7: // a delay that only some wavefronts take (late arrival at the next barrier / exit)
 			g := guard(r, nwf, Stmt{})
 			k := 1 + r.Intn(4)
@@ -196,7 +204,11 @@ func generate(seed uint64, n int) []Case {
 	for i := 0; i < n; i++ {
 		cr := r.Fork()
 		if i%5 == 4 {
-			cs = append(cs, corner(cr, i/5))
+			c := corner(cr, i/5)
+			if cr.Intn(3) == 0 && c.NWf*c.NWg <= 32 {
+				c.GPU = "mi300a"
+			}
+			cs = append(cs, c)
 			continue
 		}
 		nwf := nwfChoices[cr.Intn(len(nwfChoices))]
@@ -213,7 +225,16 @@ func generate(seed uint64, n int) []Case {
 		if mem && cr.Intn(3) == 0 {
 			pen = 3
 		}
-		cs = append(cs, Case{Name: fmt.Sprintf("rnd%d", i), NWf: nwf, NWg: nwg, Pen: pen, Prog: genProg(cr, nwf, mem)})
+		refuse := []int{0, 0, 1, 2, 3}[cr.Intn(5)]
+		gpu := ""
+		if cr.Intn(4) == 0 { // MI300A compute unit: 8 wavefronts per SIMD, register scoreboard, coalescing penalty 3
+			gpu = "mi300a"
+			pen = 0
+			for nwf*nwg > 32 {
+				nwg--
+			}
+		}
+		cs = append(cs, Case{Name: fmt.Sprintf("rnd%d", i), NWf: nwf, NWg: nwg, Pen: pen, GPU: gpu, Refuse: refuse, Prog: genProg(cr, nwf, mem)})
 	}
 	return cs
 }
